@@ -16,6 +16,11 @@ def _legs(tier):
          "gen": [("Proxy_MC", "Proxy_GenDrop.cfg")], "trace": ("Proxy_Trace", "Proxy_Trace.cfg"), "shards": 2},
         {"name": "xa-drop", "driver": "proxy", "env": {"FLAVOUR": "xa", "MAXSTEPS": "3"},
          "gen": [("Proxy_MC", "Proxy_GenDrop.cfg")], "trace": ("Proxy_Trace", "Proxy_Trace.cfg"), "shards": 2},
+        # the database fails the COMMIT of an explicit local transaction
+        {"name": "at-commitf", "driver": "proxy", "env": {"FLAVOUR": "at", "MAXSTEPS": "3"},
+         "gen": [("Proxy_MC", "Proxy_GenCommitF.cfg")], "trace": ("Proxy_Trace", "Proxy_Trace.cfg"), "shards": 2},
+        {"name": "xa-commitf", "driver": "proxy", "env": {"FLAVOUR": "xa", "MAXSTEPS": "3"},
+         "gen": [("Proxy_MC", "Proxy_GenCommitF.cfg")], "trace": ("Proxy_Trace", "Proxy_Trace.cfg"), "shards": 2},
         {"name": "xa", "driver": "proxy", "env": {"FLAVOUR": "xa", "MAXSTEPS": "2"},
          "gen": [("Proxy_MC", "Proxy_Gen.cfg")], "trace": ("Proxy_Trace", "Proxy_Trace.cfg"), "shards": 2},
     ]
